@@ -46,7 +46,7 @@ class C10Machine(Machine):
         "transitive_curie_remap_applied", "uri_remap_applied", "rewire_applied",
         "chain_merged_later_into_earlier", "discover_with_known_uris", "lineage_depth_ge_3",
         "sub_nonempty", "mutation_right_after_derivation", "chain_same_converter_twice",
-        "curie_remap_applied", "large_root", "followup_add_with_pattern", "same_record_followed_through_lineage", "empty_mapping", "empty_prefix_subset", "same_derivation_again", "alternating_lookups", "intermediate_converter_garbage_collected", "same_derivation_same_result", "root_with_more_than_256_records",
+        "curie_remap_applied", "large_root", "followup_add_with_pattern", "same_record_followed_through_lineage", "empty_mapping", "empty_prefix_subset", "same_derivation_again", "alternating_lookups", "intermediate_converter_garbage_collected", "same_derivation_same_result", "subset_given_as_str", "root_with_more_than_256_records",
     ]
 
     @classmethod
@@ -78,8 +78,8 @@ class C10Machine(Machine):
             cfg["uri_pool"] = cfg["uri_pool"] + tokens.synthetic_uri_prefixes(900)
             cfg["max_ops"] = min(cfg["max_ops"], 8)
         elif large:
-            cfg["curie_pool"] = cfg["curie_pool"] + tokens.synthetic_curie_prefixes(30)
-            cfg["uri_pool"] = cfg["uri_pool"] + tokens.synthetic_uri_prefixes(30)
+            cfg["curie_pool"] = cfg["curie_pool"] + tokens.synthetic_curie_prefixes(260)
+            cfg["uri_pool"] = cfg["uri_pool"] + tokens.synthetic_uri_prefixes(260)
         return cfg
 
     def __init__(self, config, known=frozenset()):
@@ -93,6 +93,9 @@ class C10Machine(Machine):
         if config.get("huge"):
             cp = cp[:len(cp) - 900] + cp[len(cp) - 900::100]
             up = up[:len(up) - 900] + up[len(up) - 900::100]
+        elif config.get("large"):
+            cp = cp[:len(cp) - 260] + cp[len(cp) - 260::26]
+            up = up[:len(up) - 260] + up[len(up) - 260::26]
         self.strings, self.pairs = observe.probe_sets(cp, up, config["id_pool"], config["delimiters"], max_ids=2, compact=True)
         self.last_was_derivation = None
         self.last_mutation = None
@@ -186,7 +189,7 @@ class C10Machine(Machine):
 
     def _gen_new(self, rng):
         cfg = self.config
-        n = rng.randint(1, 4) if not cfg.get("large") else rng.choice([8, 15, 16, 17, 24, 31, 32, 33, 64, 65])
+        n = rng.randint(1, 4) if not cfg.get("large") else rng.choice([8, 15, 16, 17, 24, 31, 32, 33, 64, 65, 100, 127])
         if cfg.get("huge") and not self.entries:
             n = rng.choice([128, 129, 255, 256, 257, 258, 300])
         recs = gen_valid_records(rng, cfg["curie_pool"], cfg["uri_pool"], n, p_repeat=0.1)
@@ -210,8 +213,11 @@ class C10Machine(Machine):
             prefixes = [p for p in cands if rng.random() < density]
         if rng.random() < 0.3:
             prefixes.append(rng.choice(self.config["curie_pool"]))
-        return {"op": "sub", "out": self._fresh_id(), "h": h, "prefixes": prefixes,
-                "arg_shape": rng.choice(["list", "list", "tuple", "set", "generator", "dict_keys"])}
+        shape = rng.choice(["list", "list", "tuple", "set", "generator", "dict_keys", "str"])
+        if shape == "str":
+            singles = [p for p in cands if len(p) == 1]
+            prefixes = rng.sample(singles, min(len(singles), rng.choice([1, 1, 2]))) if singles else prefixes
+        return {"op": "sub", "out": self._fresh_id(), "h": h, "prefixes": prefixes, "arg_shape": shape}
 
     def _gen_remap_curie(self, rng):
         cfg = self.config
@@ -504,6 +510,9 @@ class C10Machine(Machine):
                 pf = list(op["prefixes"])
                 arg = {"list": pf, "tuple": tuple(pf), "set": set(pf), "generator": (x for x in pf),
                        "dict_keys": dict.fromkeys(pf).keys()}.get(shape, pf)
+                if shape == "str" and pf and all(len(x) == 1 for x in pf):
+                    arg = "".join(pf)       # a str is an Iterable[str] of its characters: the same request
+                    self.probe("subset_given_as_str")
                 result = inputs[0].get_subconverter(arg)
             elif kind == "remap_curie":
                 result = reconciliation.remap_curie_prefixes(inputs[0], {k: v for k, v in op["mapping"]})
